@@ -184,10 +184,19 @@ class GaussianMLPEnsemble(nnx.Module):
         state_i = jax.tree.map(lambda x: x[i], state)
         base_model = nnx.merge(graphdef, state_i)
         mean_i, log_var_i = base_model(x)
-        log_var_i = self._safe_log_var(
-            log_var_i, self.min_log_var, self.max_log_var
-        )
+        log_var_i = self._bounded_log_var_i(log_var_i)
         return mean_i, jnp.exp(log_var_i)
+
+    def _bounded_log_var_i(self, log_var_i: jnp.ndarray) -> jnp.ndarray:
+        """Soft bounds for log variances of one model.
+
+        Accepts shape (n_outputs,) or (n_samples, n_outputs) and returns the
+        same shape, i.e., one bounded log variance per output dimension.
+        """
+        bounded = self._safe_log_var_i(
+            jnp.atleast_2d(log_var_i), self.min_log_var, self.max_log_var
+        )
+        return bounded.reshape(log_var_i.shape)
 
     def base_distribution(
         self, x: jnp.ndarray, i: int
@@ -211,9 +220,7 @@ class GaussianMLPEnsemble(nnx.Module):
         state_i = jax.tree.map(lambda x: x[i], state)
         base_model = nnx.merge(graphdef, state_i)
         mean_i, log_var_i = base_model(x)
-        log_var_i = self._safe_log_var_i(
-            log_var_i, self.min_log_var, self.max_log_var
-        )
+        log_var_i = self._bounded_log_var_i(log_var_i)
         std_i = jnp.exp(0.5 * log_var_i)
         return dist.MultivariateNormalDiag(loc=mean_i, scale_diag=std_i)
 
